@@ -141,6 +141,29 @@ def run(F, res, tier):
             filt, dom = True, True
     res.ob("X2", "dot/visibility-filter", "after `module.` only declarations that pass the visibility filter are rendered (private items of other modules are never offered)",
            vis and filt and decl and dom, where=cd.loc(), how="Visibility comparison: %s, filter (or an equivalent test in the loop) dominates rendering: %s" % (vis, dom))
+    # the test is made per declaration, as ModuleScope::resolve_import makes it: one name can stand for several declarations (a public
+    # type and its private constructor), and "some declaration under this name is public" lets the private one through
+    lumped = []
+    for f in fs:
+        if "{closure" not in f.path:
+            continue
+        has_vis = any((c_.endswith(("PartialEq>::ne", "PartialEq>::eq", "PartialEq::ne", "PartialEq::eq")) and "Visibility" in (c_ + ((t.get("fn") or {}).get("full", ""))))
+                      for _b, t in f.calls() for c_ in [callee(t) or callee_def(t) or ""])
+        if not has_vis:
+            continue
+        parent = F.fns.get(f.path.rsplit("::{closure", 1)[0])
+        if parent is None:
+            continue
+        dp = FL.Defs(parent)
+        for _b, t in parent.calls():
+            for a in t["args"]:
+                oa = dp.origin_op(a) if isinstance(a, dict) and "k" not in a else {}
+                if oa.get("k") == "agg" and oa["rv"].get("closure") == f.path:
+                    ad = FL.short(callee(t) or callee_def(t) or "").rsplit("::", 1)[-1]
+                    if ad in ("any", "all", "find", "find_map", "position", "take_while", "skip_while", "max_by_key", "min_by_key"):
+                        lumped.append("%s (line %s)" % (ad, t["ln"]))
+    res.ob("X2", "dot/visibility-per-declaration", "the visibility of a member offered after `module.` is that declaration's own (the test is not an any / all / "
+           "find over the declarations that share a name)", not lumped, where=cd.loc(), how="per-declaration filter" if not lumped else "visibility tested inside %s" % lumped)
     # ---- X3
     cn = F.fn("ide::ide::completion::CompletionContext::new")
     dn = FL.Defs(cn)
@@ -176,6 +199,7 @@ def run(F, res, tier):
     from rules import c05 as _c05
     _c05.namespaces(F, res, rule7="X11", rule8="X11")
     keyword_class_is_complete(F, res)
+    _c05.let_use_ordering(F, res, rule="X17")   # the names offered inside the right-hand side of a let / use are those of the scope before it
     _c05.every_visited_expression_has_its_scope_recorded(F, res, rule="X15")   # completion asks for the scope of exactly the expression under the cursor
     _c05.lowering_visits_every_child(F, res, rule="X13")   # names inside a construct that is never lowered are offered nothing
     from rules import c09 as _c09x
